@@ -93,7 +93,7 @@ NAME: /(?!__H)[A-Za-z_][A-Za-z_0-9]*/
 
 _parser = lark.Lark(GRAMMAR, parser="earley", lexer="dynamic", maybe_placeholders=False)
 _expr_parser = lark.Lark(GRAMMAR, parser="earley", lexer="dynamic", maybe_placeholders=False, start="expr")
-_NOEFFECT = re.compile(r"^\s*(PRAGMA|CREATE\s+INDEX|DROP\s+INDEX|ANALYZE|CREATE\s+UNIQUE\s+INDEX)\b", re.I)
+_NOEFFECT = re.compile(r"^\s*(PRAGMA|CREATE\s+INDEX|DROP\s+INDEX|ANALYZE|CREATE\s+UNIQUE\s+INDEX|SELECT\s+\w+\s+FROM\s+sqlite_master)\b", re.I)
 
 FEATURE_COLS = ["id", "seqid", "source", "featuretype", "start", "end", "score", "strand", "frame",
                 "attributes", "extra", "bin"]
